@@ -5,6 +5,7 @@ package main
 // (structured rejections allowed, every other panic must be unreachable).
 
 import (
+	"fmt"
 	"go/token"
 	"go/types"
 	"sort"
@@ -168,4 +169,55 @@ func sweepMentions(p *Program) []*Contract {
 		out = append(out, c)
 	}
 	return out
+}
+
+// c04Extra: the dependency list is append-only. The ghost set depset (monotone) stands for
+// depTracker.deps; that is sound only if no function other than addDep/addName assigns the
+// tracker's fields (truncating or replacing the list would silently drop recorded edges).
+func c04Extra(pc *propCheck) {
+	p := pc.P
+	vc := newVC(p, "translator (scans)")
+	res := &funcResult{vc: vc, con: &Contract{FuncName: "translator (scans)", Pkg: translatorPkgs[0]}}
+	pc.Results = append(pc.Results, res)
+	var bad []string
+	nStores := 0
+	for name, fn := range p.fns {
+		if !inTranslator(p, fn) || len(fn.Blocks) == 0 || strings.HasSuffix(fn.Prog.Fset.Position(fn.Pos()).Filename, "_test.go") {
+			continue
+		}
+		for _, b := range fn.Blocks {
+			for _, ins := range b.Instrs {
+				st, ok := ins.(*ssa.Store)
+				if !ok {
+					continue
+				}
+				fa, ok := st.Addr.(*ssa.FieldAddr)
+				if !ok {
+					continue
+				}
+				pt, ok := fa.X.Type().Underlying().(*types.Pointer)
+				if !ok {
+					continue
+				}
+				n := namedOf(pt.Elem())
+				if n == nil || n.Obj().Name() != "depTracker" {
+					continue
+				}
+				nStores++
+				if !strings.HasSuffix(name, ".depTracker).addDep") && !strings.HasSuffix(name, ".depTracker).addName") {
+					bad = append(bad, fmt.Sprintf("%s assigns depTracker.%s", strings.ReplaceAll(name, "github.com/goose-lang/goose", "goose"), under(pt.Elem()).(*types.Struct).Field(fa.Field).Name()))
+				}
+			}
+		}
+	}
+	sort.Strings(bad)
+	o := vc.oblige("scan", "translator/scan[C04 the dependency and name lists are only extended: assigned in addDep and addName only]", "true", "true", "")
+	detail := fmt.Sprintf("%d stores to depTracker fields; outside addDep/addName: %v", nStores, bad)
+	if len(bad) == 0 && nStores >= 2 {
+		o.Result = &SolverResult{Status: "unsat", Solver: "gvc-ssa-scan", Output: detail}
+	} else {
+		o.Goal = "false"
+		o.Result = &SolverResult{Status: "unknown", Solver: "gvc-ssa-scan", Output: detail}
+	}
+	pc.Obls = append(pc.Obls, o)
 }
